@@ -998,7 +998,20 @@ func (t *terminal) handleCmdOSC(r escapeReader) bool {
 		}
 	} else if b != 7 && b != 0x9c { // BEL, ST
 		debugPrintln(debugErrors, "OSC command number not followed by ;, BEL, or ST?", b)
-		return false
+		// Not a command we know, but still a string: skip it up to its
+		// terminator instead of drawing the rest of it as text.
+		for prev := b; ; prev = b {
+			b, err = r.ReadByte()
+			if err != nil {
+				if err != io.EOF {
+					debugPrintln(debugErrors, "ERR ReadByte9:", err)
+				}
+				return false
+			}
+			if b == 7 || b == 0x9c || (prev == 27 && b == '\\') {
+				return false
+			}
+		}
 	}
 
 	switch param {
